@@ -95,6 +95,37 @@ func TestVerif_C34_Trace(t *testing.T) {
 		}
 		return sb.String()
 	}
+	// several Authorization values in one request
+	type hv struct {
+		Scheme string `json:"scheme"`
+		Form   string `json:"form"`
+		User   string `json:"user"`
+		Pass   string `json:"pass"`
+		Token  string `json:"token"`
+	}
+	for run := 0; run < runs/2; run++ {
+		n := 2 + rnd.IntN(2)
+		hs := make([]hv, n)
+		values := make([]string, n)
+		for i := range hs {
+			switch rnd.IntN(6) {
+			case 0, 1:
+				hs[i] = hv{Scheme: "basic", Form: "wf", User: randStr(":", 8), Pass: randStr("", 10)}
+				values[i] = "Basic " + base64.StdEncoding.EncodeToString([]byte(hs[i].User+":"+hs[i].Pass))
+			case 2:
+				hs[i] = hv{Scheme: "basic", Form: "bad"}
+				values[i] = "Basic !!!"
+			case 3, 4:
+				hs[i] = hv{Scheme: "bearer", Form: "up", User: randStr(":", 8), Pass: randStr(":", 10)}
+				values[i] = "Bearer " + hs[i].User + ":" + hs[i].Pass
+			default:
+				hs[i] = hv{Scheme: "bearer", Form: "tok", Token: "t" + randStr(":", 20)}
+				values[i] = "Bearer " + hs[i].Token
+			}
+		}
+		out.Emit(map[string]any{"run": 1000000 + run, "fam": "http", "kind": "multi", "hs": hs, "values": values,
+			"got": vf34Creds(values)})
+	}
 	for run := 0; run < runs; run++ {
 		rec := map[string]any{"run": run, "fam": "http", "user": "", "pass": "", "token": ""}
 		var value string
